@@ -1,5 +1,5 @@
 #!/venv/bin/python
-"""tools/seedcheck.py <seeded-dir> [--checks C01,C03] [--no-suite] [--thorough]
+"""tools/seedcheck.py <seeded-dir> [--checks C01,C03] [--no-suite] [--thorough] [--thorough-on-miss]
 
 Confirms a seeded change and runs the checks against it:
  1. demo.py exits 0 on the unchanged /repo and 1 with the patch applied (scratch copy under /var/tmp)
@@ -75,7 +75,7 @@ def main():
                                             'summary': out.strip().splitlines()[-1][:300] if out.strip() else ''}
                 if rc == 1:
                     break
-            if det.get('%s/quick' % c, {}).get('exit') == 0 and '--thorough' not in args:
+            if det.get('%s/quick' % c, {}).get('exit') == 0 and '--thorough-on-miss' in args:
                 rc, out = sh('/verif/check %s --tier thorough' % c,
                              env=dict(base_env, VERIF_REPO=scratch, VERIF_MAX_CONFIRM='3'), timeout=14400)
                 sites = [l.strip() for l in out.splitlines() if l.startswith('  site=')]
